@@ -520,3 +520,60 @@ func parseVerbs(f string) []rune {
 	}
 	return out
 }
+
+// DET.map-iterators — the range statement is not the only way to walk a Go map
+// in its (random) order: the standard iterators maps.Keys / maps.Values /
+// maps.All hand the same order to whatever consumes them.  The only consumer
+// that removes the order is a sort.
+func init() {
+	register(&Rule{ID: "DET.map-iterators", Floor: 0,
+		Doc: "every call of the standard map iterators (maps.Keys, maps.Values, maps.All) in the kernel and in the text-producing tooling is the direct operand of slices.Sorted / slices.SortedFunc / slices.SortedStableFunc: collecting the sequence any other way (slices.Collect, slices.AppendSeq, a range over the iterator) keeps Go's per-run map order, which then reaches printed output, error text or generated names.  (No such call exists today; the seeded change C10-r3m3 is the standing positive example re-checked by selftest.)",
+		Run: func(c *Ctx) []Obligation {
+			const rid = "DET.map-iterators"
+			var obs []Obligation
+			keep := func(p string) bool { return isKernel(p) || (isTooling(p) && rel(p) != "lint") }
+			for _, u := range c.Funcs(keep) {
+				if u.Decl == nil || u.Decl.Body == nil {
+					continue
+				}
+				info := u.Pkg.TypesInfo
+				ord := &ordinal{}
+				sorted := map[*ast.CallExpr]bool{}
+				ast.Inspect(u.Decl.Body, func(n ast.Node) bool {
+					ce, ok := n.(*ast.CallExpr)
+					if !ok || len(ce.Args) == 0 {
+						return true
+					}
+					if stdFuncCalled(info, ce, "slices", "Sorted") || stdFuncCalled(info, ce, "slices", "SortedFunc") || stdFuncCalled(info, ce, "slices", "SortedStableFunc") {
+						if in, ok := ast.Unparen(ce.Args[0]).(*ast.CallExpr); ok {
+							sorted[in] = true
+						}
+					}
+					return true
+				})
+				ast.Inspect(u.Decl.Body, func(n ast.Node) bool {
+					ce, ok := n.(*ast.CallExpr)
+					if !ok {
+						return true
+					}
+					which := ""
+					for _, nm := range []string{"Keys", "Values", "All"} {
+						if stdFuncCalled(info, ce, "maps", nm) {
+							which = nm
+						}
+					}
+					if which == "" {
+						return true
+					}
+					construct := ord.next("maps." + which)
+					if sorted[ce] {
+						obs = append(obs, mkOb(c, rid, u, construct, ce, Proved, "sorted as it is collected", true))
+					} else {
+						obs = append(obs, mkOb(c, rid, u, construct, ce, Undecided, "the map's iteration order — different on every run — is handed on unsorted: whatever lists, prints or numbers the result depends on it", true))
+					}
+					return true
+				})
+			}
+			return obs
+		}})
+}
